@@ -23,7 +23,8 @@ points the algorithm queried them (gamma, beta, gaussian: the special functions 
 This is the code *after* the repairs recorded in findings/C09.json; the code as found is kept
 in `namespace Legacy` for the look-ups (witness theorems in BppProofs/Props/C09.lean).
 NaN is not modelled.  An infinite `while` loop of the C++ is a loop with fuel here; running out of
-fuel is the explicit outcome `Err.fuel`.
+fuel is the explicit outcome `Err.fuel` — unreachable for a positive precision (theorem
+`discretize_terminates`).
 -/
 namespace Bpp.Discretize
 open Bpp Bpp.Scalar
